@@ -222,7 +222,9 @@ def plan_C11(tier, seed):
                 "pairs: fill the buffer so that exactly s in 0..45 bytes are spare, then write a maximal-length integer of a "
                 "random type / a slice of s-1..s+1 bytes / buf_write_ptr(s-1..s+1)) on a real "
                 "DeferredWriter - also Write::write_vectored with 1..5 slices sized around the room left in the buffer, "
-                "repeated on the remainder until everything is accepted - (one run in five after an earlier writer on the same thread lost its sink to a panic in the "
+                "repeated on the remainder until everything is accepted, and write!() through Write::write_fmt (ten templates: char and str "
+                "arguments beyond ASCII, non-ASCII fill characters with drawn widths, padded / hex / signed integers, Debug escapes; the sink must "
+                "receive what format!() gives for the same arguments) - (one run in five after an earlier writer on the same thread lost its sink to a panic in the "
                 "middle of a flush and was dropped by the unwind with bytes in its buffer; the sink also implements write_vectored with writev semantics - one call may take bytes from "
                 "several slices and stop anywhere -; injected sink errors draw their ErrorKind from 19 non-Interrupted kinds). Each history runs once over a non-failing sink (accept-all / short writes / short+Interrupted) "
                 "and then once per sink write call j that occurred (all j up to 24, sampled beyond) with the sink failing (or "
@@ -241,7 +243,7 @@ def plan_C11(tier, seed):
         "eval_counters": ["runs"],
         "floors": {"runs": q(tier, 20_000, 800_000), "sink_failures_injected": q(tier, 10_000, 400_000),
                    "ints_via_cold_path": 1000, "boundary_fills": 10_000, "writers_dropped_by_unwinding_from_a_client_panic": 2000,
-                   "runs_after_an_earlier_writer_lost_its_sink_to_a_panic": 2000, "client_write_vectored_ops": 50_000, "buf_write_ptr_nonnull": 10_000, "int_type:i128": 1000, "int_type:u8": 1000,
+                   "runs_after_an_earlier_writer_lost_its_sink_to_a_panic": 2000, "client_write_vectored_ops": 50_000, "client_write_fmt_ops": 20_000, "client_write_fmt_ops_with_non_ascii_output": 10_000, "buf_write_ptr_nonnull": 10_000, "int_type:i128": 1000, "int_type:u8": 1000,
                    "distinct_nontrivial": q(tier, 10_000, 300_000)},
         "assumptions": ["the writer's capacity is learnt through buf_write_ptr on a fresh writer, not assumed"],
     }
@@ -710,7 +712,8 @@ def plan_C12(tier, seed):
         "rule": "both entry points (renumber_aig and Renumber::new) must agree in verdict, literal map and gate list. "
                 "well-formed: random AIGs (arbitrary sparse unordered even literal numbering incl. max_var_index at the type's "
                 "limit, gate order shuffled against dependency order, constants and negated literals as gate inputs, x&x, "
-                "x&!x, duplicate gates, unused gates, 0..k of every section, symbols/comment, all five literal types) x all 8 "
+                "x&!x, duplicate gates, unused gates, one graph in four with about half of its gates defined through their ODD literal "
+                "(the variable is the NAND; references of both polarities unchanged), 0..k of every section, symbols/comment, all five literal types) x all 8 "
                 "(trim, structural_hash, const_fold) combinations. Checked per result: inputs then latches then gates "
                 "numbered consecutively, max_var_index = their count, every gate's inputs numbered below it with the larger "
                 "first, every output / latch next-state / bad / constraint / justice / fairness literal evaluates identically "
@@ -727,7 +730,7 @@ def plan_C12(tier, seed):
         "floors": {"renumberings": q(tier, 1_500_000, 100_000_000), "lit_map_checks": 10_000_000,
                    "literal_comparisons": 20_000_000, "results_with_fewer_gates": 100_000,
                    "defect:FoundCycle": 10_000, "defect:LitNotDefined": 10_000, "defect:LitAlreadyDefined": 10_000,
-                   "deep_graphs": 40, "lit:u8": 1000, "lit:usize": 1000,
+                   "deep_graphs": 40, "lit:u8": 1000, "lit:usize": 1000, "graphs_with_gates_defined_by_an_odd_literal": 5000,
                    "distinct_nontrivial": q(tier, 60_000, 3_000_000)},
         "assumptions": ["'arbitrarily deep' is restated as depth 2^20 (quick) / 2^23 (thorough) within 600 CPU-seconds on a 256 KiB stack"],
     }
